@@ -71,7 +71,11 @@ pub fn check(cx: &Cx, rep: &mut Report) {
         // R4: weak handles upgrade while any strong handle exists
         for o in ix.ops.iter().filter(|o| o.tag == af.tag && o.op == OpK::Upgrade && o.executed()) {
             let Some(e) = o.e else { continue };
-            if e > end {
+            // "as long as any strong handle exists every weak handle upgrades" does not end with the actor: the handles
+            // of a terminated actor still name it (L1; on L2 handles inside pending awaits are released at moments the
+            // harness cannot order once the actor has terminated)
+            let after_end = e > end;
+            if after_end && cx.mt {
                 continue;
             }
             let k1 = kinds_at(cx, af.tag, o.b);
@@ -83,13 +87,16 @@ pub fn check(cx: &Cx, rep: &mut Report) {
             // a stop accepted earlier does not matter: the mailbox is open until the loop ends; but once the loop
             // has ended (task end) upgrades may fail: excluded above
             rep.premise("C15.R4.upgrade_while_strong");
+            if after_end {
+                rep.premise("C15.R4.upgrade_after_termination_while_strong");
+            }
             rep.count(&format!("C15.R4.{:?}.{}", o.hk, kinds_sig(&common)), 1);
             if common.keys().all(|k| *k != Hk::Addr && *k != Hk::Owning) {
                 nontrivial = true;
             }
             if !matches!(o.res, Some(Res::Handle { some: true, .. })) {
                 // the loop may be ending concurrently (stopped() running): the channel closes only at task end
-                rep.fail(P, "R4", format!("upgrade_failed;weak={:?};strong={}", o.hk, kinds_sig(&common)), format!("upgrade of a {:?} of tag {} at #{} failed although strong handles {:?} exist", o.hk, af.tag, o.b, common), vec![o.b]);
+                rep.fail(P, "R4", format!("upgrade_failed{};weak={:?};strong={}", if after_end { "_after_termination" } else { "" }, o.hk, kinds_sig(&common)), format!("upgrade of a {:?} of tag {} at #{} failed although strong handles {:?} exist", o.hk, af.tag, o.b, common), vec![o.b]);
             }
         }
         // R3: timers keep firing on schedule while any strong handle exists (idle single-incarnation actors: exact)
